@@ -78,6 +78,8 @@ impl Wake for FlushWaker {
 }
 
 struct Shared {
+    /// flush futures that were polled once and are then kept alive, un-awaited, to the end of the run
+    held: Mutex<Vec<FlushWait>>,
     /// Some: appends run under this thread-local `metrics` recorder (global-recorder bridge)
     tl_recorder: Option<CountingRecorder>,
     live_bound: u64,
@@ -175,6 +177,12 @@ fn do_flush(sh: &Shared, h: &Handle, op: &Value) {
                 sh.hist.log(K::FlushCancelled { fid });
                 return;
             }
+            "hold" => {
+                // neither awaited nor dropped: the future stays alive until the end of the run
+                sh.held.lock().unwrap().push(fut);
+                sh.hist.log(K::FlushCancelled { fid });
+                return;
+            }
             "bounded" => {
                 let n = sh.ctl.nexts_done.load(Ordering::SeqCst).saturating_sub(start_nexts);
                 if n > bound {
@@ -217,6 +225,24 @@ fn run_ops(sh: &Arc<Shared>, h: &Handle, thread: u64, ops: &[Value]) {
             "sleep" => detsim::sleep_ns(ju(op, "ns", 0)),
             "gate" => sh.ctl.gate.add(ji(op, "n", 1)),
             "gate_open" => sh.ctl.gate.open_forever(),
+            "wait_next_started" => {
+                // until the writer is inside its n-th `next` call (bounded: 10 s of simulated time)
+                let n = ju(op, "n", 1);
+                let mut polls = 0;
+                while sh.ctl.nexts_started.load(Ordering::SeqCst) < n && polls < 10_000 {
+                    detsim::sleep_ns(1_000_000);
+                    polls += 1;
+                }
+            }
+            "gate_open_after" => {
+                let ctl = sh.ctl.clone();
+                let ns = ju(op, "ns", 0);
+                // (the helper is joined by nobody: it ends on its own long before the run does)
+                let _ = detsim::thread::spawn_named("gate-opener", move || {
+                    detsim::sleep_ns(ns);
+                    ctl.gate.open_forever();
+                });
+            }
             "yield" => detsim::yield_point(),
             "clone_churn" => {
                 let c = h.clone();
@@ -379,6 +405,7 @@ fn queue_main(plan: &Value, slot: Arc<Mutex<Option<QueueRun>>>) {
         (Handle::Typed(q), j)
     };
     let sh = Arc::new(Shared {
+        held: Mutex::new(vec![]),
         tl_recorder: if global_tl { Some(recorder.clone()) } else { None },
         live_bound: liveness_bound(plan).unwrap_or(u64::MAX),
         hist: hist.clone(),
@@ -500,6 +527,7 @@ fn queue_main(plan: &Value, slot: Arc<Mutex<Option<QueueRun>>>) {
         }
     }
     let fin = writer_tid.map(detsim::thread_finished).unwrap_or(true);
+    sh.held.lock().unwrap().clear();
     let run = QueueRun {
         hist: hist.snapshot(),
         counters: recorder.counters(),
@@ -1074,14 +1102,21 @@ fn finish_report(mut r: Report, out: detsim::Outcome, run: Option<QueueRun>, pla
             }
             None => {
                 if run.is_none() {
-                    r.harness_error = Some(format!("scenario produced no result (main panic: {main_panic:?})"));
+                    match main_panic.as_deref().map(crate::driver::classify_uncaught_panic) {
+                        Some(Ok(v)) => r.violation = Some(v),
+                        Some(Err(e)) => r.harness_error = Some(e),
+                        None => r.harness_error = Some("scenario produced no result".into()),
+                    }
                 }
             }
         }
     }
     if let Some(p) = main_panic {
         if r.violation.is_none() && r.harness_error.is_none() {
-            r.harness_error = Some(format!("harness main thread panicked: {p}"));
+            match crate::driver::classify_uncaught_panic(&p) {
+                Ok(v) => r.violation = Some(v),
+                Err(e) => r.harness_error = Some(e),
+            }
         }
     }
     r
@@ -1722,7 +1757,58 @@ pub fn check_c05(plan: &Value, run: &QueueRun, d: &Digest) -> Option<Violation> 
     None
 }
 
+/// The writer is stalled inside one `next` call for much longer than `shutdown_timeout` while the
+/// join handle is dropped; once it resumes, the backlog is small enough to be drained well within
+/// the timeout (which starts when the writer *begins* its final drain): nothing may be lost.
+fn gen_c05_stalled_drop(rng: &mut Rng) -> Value {
+    let n = 40 + rng.below(80);
+    let timeout = *rng.pick(&[5_000_000u64, 20_000_000, 100_000_000]);
+    let stall = timeout * (3 + rng.below(20));
+    let flush_interval = *rng.pick(&[1_000_000u64, 50_000_000, 1_000_000_000]);
+    let mut ops = vec![];
+    let mut left = n;
+    while left > 0 {
+        let k = 1 + rng.below(left.min(40));
+        ops.push(json!({"op":"append","n":k}));
+        left -= k;
+        if rng.chance(0.2) {
+            ops.push(json!({"op":"flush","mode": *rng.pick(&["cancel", "hold"])}));
+        }
+    }
+    let mut sched = gen_sched(rng, &SchedOpts { est_choices: 60 + n * 6, threads: 3, jump_max_ns: 0, stall_clock_max_ns: 0, max_steps: 80_000 });
+    // every clock read costs at most 1 us here: the final drain must fit into the timeout with room to spare
+    sched["now_cost_ns"] = json!(*rng.pick(&[0u64, 100, 1_000]));
+    json!({
+        "scenario": "queue_shutdown",
+        "sched": sched,
+        "boxed": rng.chance(0.5),
+        "capacity": n + 8,
+        "flush_interval_ns": flush_interval,
+        "shutdown_timeout_ns": timeout,
+        "recorder": rng.chance(0.3),
+        "next_cost_ns": *rng.pick(&[0u64, 1_000]),
+        "gate": 0,
+        "script": [],
+        "report_res": "O",
+        "flush_fail": [],
+        "producers": [ops],
+        // the drop must find the writer *inside* a stalled `next` call (had it not started one yet,
+        // it would begin its final drain right away and the stall would legitimately eat the timeout)
+        "main_ops": [{"op":"gate_open_after","ns": stall}, {"op":"wait_next_started","n":1}],
+        "pre_end": [],
+        "end": "drop",
+        "end_before_join": rng.chance(0.5),
+        "post": [],
+        "settle_ns": 0,
+        "lossy_shutdown": false,
+        "stalled_drop": true,
+    })
+}
+
 pub fn gen_c05(rng: &mut Rng, _tier: Tier) -> Value {
+    if rng.chance(0.08) {
+        return gen_c05_stalled_drop(rng);
+    }
     let forget = rng.chance(0.35);
     let lossy = !forget && rng.chance(0.12);
     let np = 1 + rng.below(3);
@@ -1742,7 +1828,7 @@ pub fn gen_c05(rng: &mut Rng, _tier: Tier) -> Value {
             if !lossy {
                 match rng.below(9) {
                     0 => ops.push(json!({"op":"flush","mode":"await"})),
-                    1 => ops.push(json!({"op":"flush","mode":"cancel"})),
+                    1 => ops.push(json!({"op":"flush","mode": if rng.chance(0.4) { "hold" } else { "cancel" }})),
                     2 => ops.push(json!({"op":"sleep","ns": rel_sleep(rng, flush_interval)})),
                     3 => ops.push(json!({"op":"clone_churn"})),
                     _ => {}
